@@ -33,6 +33,21 @@ pub fn run(ctx: &Ctx, reg: &Registry) -> i32 {
                     model_case(&mut acc, reg, "C06", s, &case, Source::Json, &A);
                 }
                 acc.sample(|| json!({"subject": s.name(), "payload": case.payload.show(), "outcome": r.outcome.show()}));
+                // repeated members, aliased map keys ("1" / "01": the later entry wins, like a plain insert) and
+                // non-finite floats, through the second value source; the model reads members in enumeration order
+                if i % 3 == 0 {
+                    let hcase = gen_case_h(reg, s, ctx.seed.wrapping_add(6060), i, Host { dup: true, nonfinite: true, noncanon: false, alias: true });
+                    if !hcase.payload.json_representable() || hcase.faults.contains(&"aliased-map-key") {
+                        note_case(&mut acc, s, &hcase);
+                        let r = model_case(&mut acc, reg, "C06", s, &hcase, Source::Ov, &A);
+                        acc.count("payloads_with_repeated_aliased_or_non_finite_content");
+                        if let monitor::Outcome::Ok(p) = &r.outcome {
+                            if p.leaves() > 0 {
+                                acc.nontrivial(&(s.name(), p.show()));
+                            }
+                        }
+                    }
+                }
             }
             for b in 0..n_base {
                 unit += 1;
